@@ -71,7 +71,9 @@ pub fn judge(o: &[u8], f: Fmt, x: Fmt, scheds: &[Sched], acc: &mut Acc) {
             Ok(Some(g)) if f == Fmt::Toml => {
                 // exceptions: an earlier trial legitimately accepts the text
                 let json_ex = *g == Fmt::Json && crate::read::json::value_at_start(o);
-                let yaml_ex = *g == Fmt::Yaml && crate::read::yaml::first_doc_is_collection(o);
+                // ... judged on what the trial can have seen: the whole text, or (when a
+                // character YAML forbids follows later) the text before that character
+                let yaml_ex = *g == Fmt::Yaml && (crate::read::yaml::first_doc_is_collection(o) || crate::known::yaml_trial_read_ahead_shape(o));
                 if json_ex {
                     acc.count("toml_exception_first_token_is_json_value");
                 }
@@ -94,6 +96,10 @@ pub fn judge(o: &[u8], f: Fmt, x: Fmt, scheds: &[Sched], acc: &mut Acc) {
             let b = run_mode(o, &mode, Some(f), x);
             acc.count("pipeline_equivalence_checked");
             if a.verdict != b.verdict || a.out != b.out {
+                if crate::known::yaml_trial_read_ahead_shape(o) && crate::known::listed("C10", "C09-yaml-trial-depends-on-read-ahead") {
+                    acc.known("C09-yaml-trial-depends-on-read-ahead", || format!("own {} output [{}] ({})", f.name(), preview(o, 50), mode.describe()));
+                    return;
+                }
                 acc.violation(Violation { sig: format!("xt -t {} | xt differs from xt -t {} | xt -f {}", f.name(), f.name(), f.name()), case: case(&mode.describe()), observed: format!("detected: {} [{}]; explicit: {} [{}]", a.verdict.show(), preview(&a.out, 120), b.verdict.show(), preview(&b.out, 120)), expected: "identical outcome".into() });
                 return;
             }
